@@ -98,6 +98,30 @@ Proof. exact lossy_serves_ended_association. Qed.
 Example C09_src_blocks_where_lossy_drops : run src_cfg init lossy_witness = None.
 Proof. exact src_blocks_instead. Qed.
 
+(* ---- Read after Close: whatever remainder of a datagram was held, no bytes, io.EOF ---- *)
+Theorem C09_close_releases_remainder : forall g s s' c k i,
+  exec g s (CloseStep c) = Some s' -> get s c = Some k -> cphase k = Closing i ->
+  nth_error (close_ops g) i = Some CRelease ->
+  exists k', get s' c = Some k' /\ last k' = None /\ cphase k' = Closing (S i).
+Proof. exact close_release_clears. Qed.
+Theorem C09_read_after_close_no_bytes : forall g s c k n,
+  get s c = Some k -> last k = None -> readq k = [] -> exec g s (ConnRead c n) = None.
+Proof. exact read_nothing_held. Qed.
+Theorem C09_read_after_close_eof : forall g s c k,
+  panicked s = false -> read_selects_closed g = true -> get s c = Some k -> sclosed k = true -> last k = None ->
+  length (closeCh s) < cap_close g ->
+  exists s', exec g s (ConnEof c) = Some s' /\ trace s' = trace s ++ [EEof c].
+Proof. exact read_closed_eof. Qed.
+Theorem C09_src_close_releases_first :
+  nth_error (close_ops src_cfg) 0 = Some CRelease /\ read_selects_closed src_cfg = true.
+Proof. exact src_close_releases_first. Qed.
+Example C09_src_read_after_close :
+  exists s, run src_cfg init read_after_close = Some s /\
+    exec src_cfg s (ConnRead 0 2048%N) = None /\
+    (exists s', exec src_cfg s (ConnEof 0) = Some s' /\ List.last (trace s') EStop = EEof 0) /\
+    chunks_ok (trace s ++ [ERead 0 (D 1 0 9000%N) false 2048%N 2048%N]) = false.
+Proof. exact src_read_after_close. Qed.
+
 (* ---- loop_never_panics ---- *)
 
 (* any Close that never closes readCh (closure is signalled on a separate channel) *)
@@ -184,6 +208,11 @@ Print Assumptions C09_fresh_after_idle_expiry.
 Print Assumptions C09_src_notifies_reliably.
 Print Assumptions C09_fresh_after_idle_expiry_refuted_for_nonblocking_notification.
 Print Assumptions C09_src_blocks_where_lossy_drops.
+Print Assumptions C09_close_releases_remainder.
+Print Assumptions C09_read_after_close_no_bytes.
+Print Assumptions C09_read_after_close_eof.
+Print Assumptions C09_src_close_releases_first.
+Print Assumptions C09_src_read_after_close.
 Print Assumptions C09_loop_never_panics_fixed.
 Print Assumptions C09_loop_never_panics.
 Print Assumptions C09_loop_never_panics_refuted.
